@@ -193,9 +193,15 @@ Proof. intros H. unfold task_reschedule. ggo. Qed.
 Lemma G_propagate_task s0 : forall fuel s t, G s0 s -> G s0 (propagate_task fuel s t).
 Proof.
   induction fuel as [|fuel IH]; intros s t H; cbn [propagate_task].
-  - destruct (negb _); auto. destruct (task_is_runnable s t); [apply G_task_reschedule; auto|].
+  - destruct (negb _); auto.
+    set (s' := if task_is_runnable s t then task_reschedule s t else s).
+    assert (H' : G s0 s') by (unfold s'; destruct (task_is_runnable s t); [apply G_task_reschedule|]; auto).
+    clearbody s'. clear H s. rename s' into s, H' into H.
     destruct (twaiting _); auto.
-  - destruct (negb _); auto. destruct (task_is_runnable s t); [apply G_task_reschedule; auto|].
+  - destruct (negb _); auto.
+    set (s' := if task_is_runnable s t then task_reschedule s t else s).
+    assert (H' : G s0 s') by (unfold s'; destruct (task_is_runnable s t); [apply G_task_reschedule|]; auto).
+    clearbody s'. clear H s. rename s' into s, H' into H.
     destruct (twaiting (gett s t)) as [l|]; auto.
     set (s1 := match lowner (getl s l) with Some o => propagate_task fuel s o | None => s end).
     assert (H1 : G s0 s1) by (unfold s1; destruct (lowner (getl s l)); auto).
